@@ -31,6 +31,7 @@ import extract
 
 NUMERIC_OUT = os.path.join(os.path.dirname(extract.OUT), "Numeric.lean")
 LOSSES_OUT = os.path.join(os.path.dirname(extract.OUT), "Losses.lean")
+PPO_OUT = os.path.join(os.path.dirname(extract.OUT), "Ppo.lean")
 
 
 class Untranslatable(Exception):
@@ -452,11 +453,155 @@ def t_shared_eval() -> str:
                     "(reward : Ten (Dual K))", tr, ["bl_val", "bl_loss"])
 
 
+
+# ---- PPO loss block: mixed gradient-carrying / gradient-free tensors ----------------------------
+# Kinds: T = Ten (Dual K) · TK = Ten K (produced under no_grad / detached) · D = Dual K · K = plain scalar.
+class PpoTr:
+    def __init__(self, env, atoms):
+        self.env = dict(env)
+        self.atoms = dict(atoms)
+        self.lines: List[str] = []
+        self.fresh = 0
+
+    def tmp(self) -> str:
+        self.fresh += 1
+        return f"t{self.fresh}"
+
+    def bind(self, fn: str, a: str, b: str) -> str:
+        v = self.tmp()
+        self.lines.append(f"  let {v} ← Ten.bop ({fn}) {a} {b}")
+        return v
+
+    def expr(self, n: ast.AST) -> Tuple[str, str]:
+        key = extract.norm(n)
+        if key in self.atoms:
+            return self.atoms[key]
+        if isinstance(n, ast.Name):
+            if n.id not in self.env:
+                raise Untranslatable(f"unknown name {n.id}")
+            return self.env[n.id]
+        if isinstance(n, ast.Constant) and isinstance(n.value, (int, float)) and not isinstance(n.value, bool):
+            return Tr.lit_K(n.value), "K"
+        if isinstance(n, ast.UnaryOp) and isinstance(n.op, ast.USub):
+            t, k = self.expr(n.operand)
+            if k in "DK":
+                return f"(- {t})", k
+            raise Untranslatable("negated tensor")
+        if isinstance(n, ast.BinOp) and type(n.op) in BIN and BIN[type(n.op)] in "+-*":
+            op = BIN[type(n.op)]
+            (lt, lk), (rt, rk) = self.expr(n.left), self.expr(n.right)
+            kinds = (lk, op, rk)
+            if lk == "K" and rk == "K":
+                return f"({lt} {op} {rt})", "K"
+            if lk == "D" and rk == "D":
+                return f"({lt} {op} {rt})", "D"
+            if kinds == ("K", "*", "D"):
+                return f"(Dual.smul {lt} {rt})", "D"
+            if kinds == ("T", "-", "TK"):
+                return self.bind("fun a b => a - Dual.const b", lt, rt), "T"
+            if kinds == ("TK", "-", "TK"):
+                return self.bind("fun r v => r - v", lt, rt), "TK"
+            if kinds == ("T", "*", "TK"):
+                return self.bind("fun r a => Dual.smul a r", lt, rt), "T"
+            raise Untranslatable(f"kinds {lk} {op} {rk}")
+        if isinstance(n, ast.Call):
+            f = n.func
+            fkey = extract.norm(f)
+            args = n.args
+            kws = {kw.arg: extract.norm(kw.value) for kw in n.keywords}
+            if fkey == "torch.exp" and len(args) == 1 and not kws:
+                t, k = self.expr(args[0])
+                if k == "T":
+                    return f"(Ten.map (Dual.expw w) {t})", "T"
+            if fkey == "torch.min" and len(args) == 2 and not kws:
+                (lt, lk), (rt, rk) = self.expr(args[0]), self.expr(args[1])
+                if lk == "T" and rk == "T":
+                    return self.bind("minD", lt, rt), "T"
+            if fkey == "torch.clamp" and len(args) == 3 and not kws:
+                (t, k), (lo, lok), (hi, hik) = self.expr(args[0]), self.expr(args[1]), self.expr(args[2])
+                if k == "T" and lok == "K" and hik == "K":
+                    return f"(Ten.map (clampD {lo} {hi}) {t})", "T"
+            if fkey == "F.huber_loss" and len(args) == 2 and not kws:
+                (lt, lk), (rt, rk) = self.expr(args[0]), self.expr(args[1])
+                if lk == "T" and rk == "TK":
+                    v = self.bind("fun v r => huberD (v - Dual.const r)", lt, rt)
+                    return f"(Ten.meanAll {v})", "D"
+            if isinstance(f, ast.Attribute):
+                m = f.attr
+                t, k = self.expr(f.value)
+                if m == "view" and [extract.norm(a) for a in args] == ["-1", "1"] and k in ("T", "TK"):
+                    return f"(Ten.viewCol {t})", k
+                if m == "sum" and not args and kws == {"dim": "-1"} and k == "T":
+                    return f"(Ten.sumLast {t})", "T"
+                if m == "mean" and not args and not kws and k == "T":
+                    return f"(Ten.meanAll {t})", "D"
+                if m == "detach" and not args and k == "T":
+                    return f"(Ten.map (fun x => x.v) {t})", "TK"
+        raise Untranslatable(ast.unparse(n))
+
+    def assign(self, s: ast.Assign):
+        t, k = self.expr(s.value)
+        name = s.targets[0].id
+        self.lines.append(f"  let {name} := {t}")
+        self.env[name] = (name, k)
+
+
+PPO = "rl4co/models/rl/ppo/ppo.py"
+
+
+def ppo_block() -> List[ast.stmt]:
+    """the six assignments of the PPO loss block (top level of the mini-batch loop; the optional
+    `if normalize_adv:` statement in between is not part of the translated block)"""
+    fn = _fn(PPO, "PPO.shared_step")
+    loops = [n for n in ast.walk(fn) if isinstance(n, ast.For) and extract.norm(n.target) == "sub_td"]
+    if len(loops) != 1:
+        raise Untranslatable("mini-batch loop `for sub_td in dataloader`")
+    names = ["previous_reward", "ratio", "adv", "surrogate_loss", "value_loss", "loss"]
+    body = [s for s in loops[0].body if isinstance(s, ast.Assign) and len(s.targets) == 1
+            and isinstance(s.targets[0], ast.Name) and s.targets[0].id in names]
+    if [s.targets[0].id for s in body] != names:
+        raise Untranslatable(f"PPO loss block statements {[s.targets[0].id for s in body]}")
+    return body
+
+
+def ppo_block_callable():
+    """the same six source statements compiled as they stand into a Python function
+    f(torch, F, self, sub_td, ll, entropy, value_pred) -> dict of the assigned names (used by the
+    `numeric_generated` unit to run the REAL statements next to their Lean translation)"""
+    body = ppo_block()
+    ret = ast.parse("return dict(previous_reward=previous_reward, ratio=ratio, adv=adv, surrogate_loss=surrogate_loss, "
+                    "value_loss=value_loss, loss=loss)").body
+    fdef = ast.parse("def _ppo_block(torch, F, self, sub_td, ll, entropy, value_pred):\n    pass").body[0]
+    fdef.body = list(body) + ret
+    mod = ast.Module(body=[fdef], type_ignores=[])
+    ast.fix_missing_locations(mod)
+    ns: dict = {}
+    exec(compile(mod, "<ppo loss block of rl4co/models/rl/ppo/ppo.py>", "exec"), ns)
+    return ns["_ppo_block"]
+
+
+def t_ppo_loss() -> str:
+    body = ppo_block()
+    # the only other top-level statement allowed to touch `adv` is the optional normalisation `if`
+    tr = PpoTr({"ll": ("ll", "T"), "entropy": ("entropy", "T"), "value_pred": ("value_pred", "T")},
+               {"sub_td['reward']": ("reward", "TK"), "sub_td['logprobs']": ("oldLogp", "TK"),
+                "self.ppo_cfg['clip_range']": ("clipRange", "K"), "self.ppo_cfg['vf_lambda']": ("vfLambda", "K"),
+                "self.ppo_cfg['entropy_lambda']": ("entLambda", "K")})
+    for s in body:
+        tr.assign(s)
+    params = "(w : K → K) (clipRange vfLambda entLambda : K) (ll : Ten (Dual K)) (oldLogp reward : Ten K) (value_pred entropy : Ten (Dual K))"
+    doc = ("ppo.py:PPO.shared_step, loss block of one mini-batch with `normalize_adv = False`: previous_reward, ratio, adv, "
+           "surrogate_loss, value_loss, loss, statement by statement → (loss, surrogate_loss, value_loss, ratio, adv); `none` = torch raises")
+    return (f"/-- {doc} -/\ndef ppoLoss {params} :\n    Option (Dual K × Dual K × Dual K × Ten (Dual K) × Ten K) := do\n"
+            + "\n".join(tr.lines) + "\n  pure (loss, surrogate_loss, value_loss, ratio, adv)\n")
+
 TEN_TARGETS: List[Tuple[str, Callable[[], str]]] = [
     ("reinforceLoss", t_reinforce_loss),
     ("criticEval", t_critic_eval),
     ("sharedEval", t_shared_eval),
 ]
+
+PPO_TARGETS: List[Tuple[str, Callable[[], str]]] = [("ppoLoss", t_ppo_loss)]
 
 TARGETS: List[Tuple[str, Callable[[], str]]] = [
     ("welfordUpdate", t_welford_update),
@@ -516,9 +661,40 @@ variable {K : Type} [Add K] [Sub K] [Mul K] [Div K] [Neg K] [Zero K] [One K] [Na
 """
 
 
+HEADER_PPO = HEADER_LOSSES.replace("Loss / baseline code", "The PPO loss block").replace(
+    "Rl4co/Props/C16/TrainGenerated.lean", "Rl4co/Props/C16/TrainGeneratedPpo.lean") + "variable [LT K] [DecidableLT K]\n\n"
+
+
+DEFAULTS_FILE = os.path.join(os.path.dirname(os.path.abspath(__file__)), "pytrans_defaults.json")
+_frozen: Optional[Dict[str, str]] = None
+
+
+def _frozen_defaults() -> Dict[str, str]:
+    global _frozen
+    if _frozen is None:
+        try:
+            import json
+            _frozen = json.load(open(DEFAULTS_FILE))
+        except Exception:
+            _frozen = {}
+    return _frozen
+
+
+def freeze():
+    """maintenance: record the translation of the CURRENT sources as the pattern-miss defaults"""
+    import json
+    out = {}
+    for name, fn in TARGETS + TEN_TARGETS + PPO_TARGETS:
+        out[name] = fn()
+    with open(DEFAULTS_FILE, "w") as f:
+        json.dump(out, f, indent=1, sort_keys=True)
+    return out
+
+
 def generate(write: bool = True) -> Dict[str, dict]:
     report = _generate_file(NUMERIC_OUT, HEADER, TARGETS, "end Rl4co.Numeric", write)
     report.update(_generate_file(LOSSES_OUT, HEADER_LOSSES, TEN_TARGETS, "end Rl4co.Numeric", write))
+    report.update(_generate_file(PPO_OUT, HEADER_PPO, PPO_TARGETS, "end Rl4co.Numeric", write))
     return report
 
 
@@ -527,7 +703,9 @@ def _generate_file(out_path, header, targets, footer, write) -> Dict[str, dict]:
     HEADER = header
     TARGETS = targets
     old = open(NUMERIC_OUT).read() if os.path.exists(NUMERIC_OUT) else ""
-    committed = _committed_blocks(old)
+    # pattern-miss fallback: the frozen translation of the pinned tree (harness/pytrans_defaults.json, written only
+    # by `pytrans.py --freeze`, never at run time) — not whatever an earlier run left in the generated file
+    committed = _frozen_defaults() or _committed_blocks(old)
     report: Dict[str, dict] = {}
     parts = [HEADER]
     for name, fn in TARGETS:
@@ -557,6 +735,9 @@ def _generate_file(out_path, header, targets, footer, write) -> Dict[str, dict]:
 if __name__ == "__main__":
     import json
     import sys
+    if "--freeze" in sys.argv:
+        print("frozen:", sorted(freeze()))
+        sys.exit(0)
     rep = generate(write="--write" in sys.argv)
     json.dump(rep, sys.stdout, indent=1)
     print()
